@@ -27,6 +27,11 @@ type GatedStore struct {
 	Completion []int         // arrival indices in completion order
 	Failed     int           // number of Store calls that returned an error
 	MaxInFlight int
+	// FailAbove > 0: a Store call that arrives while more than FailAbove calls (itself included) are in
+	// flight fails, like a store that throttles concurrent requests.
+	FailAbove int
+	// OnArrival, when set, is called (outside the lock) with the arrival index of every Store call.
+	OnArrival func(idx int)
 }
 
 func NewGatedStore(inner *RecStore) *GatedStore {
@@ -80,7 +85,14 @@ func (g *GatedStore) Store(ctx context.Context, name string, b []byte) error {
 		g.MaxInFlight = int(n)
 	}
 	returned := g.Returned
+	onArrival := g.OnArrival
+	if g.FailAbove > 0 && int(n) > g.FailAbove {
+		f.Fail = true
+	}
 	g.mu.Unlock()
+	if onArrival != nil {
+		onArrival(idx)
+	}
 	for i := 0; i < f.Delay*40; i++ {
 		runtime.Gosched()
 	}
